@@ -40,13 +40,21 @@ BCKLIN_CONFS = {
     "rk23loose_b45": ("rk23", {"atol": 3e-2, "rtol": 3e-2}, {"method": "rk45", "atol": TIGHT, "rtol": TIGHT}),
 }
 
-# Tolerances (relative, see _kind_errors).  Calibration on the repaired tree, seeds 0..3 and 7, both tiers (largest error seen):
-#   rk45-only configurations   first order 2e-9,  second order 5e-8   -> 1e-6 / 1e-5
-#   configurations with rk23   first order 2e-8,  second order 1.2e-7 -> 1e-5 / 1e-4
-#   rk4/rk38 finest grid (33..65 points) first order 7e-7, second order on the once-refined grid 3e-5 -> 1e-4 / 5e-3
+# Tolerances (relative, see _kind_errors), >= 100 x the largest error seen on the repaired tree (seeds 0..3 and 7 quick, 0 and 1 thorough):
+#   both integrations rk45 at 1e-10          first order 8e-9,   second order 6e-8   -> 1e-6 / 1e-5
+#   rk45 at 1e-10, backward rk45 at 1e-9     first order 3e-8                        -> 1e-5 / 1e-4
+#   configurations with rk23 at 1e-9         first order 7e-7                        -> 1e-4 / 1e-3
+#   rk4/rk38, finest grid (49..97 points)    first order 2e-6, second order (once-refined grid) 1e-5 -> 1e-3 / 1e-2
 #   linear system, tight backward, inaccurate forward: dL/dy0 5e-11 -> 1e-6
-TOL_TIGHT = {False: (1e-6, 1e-5), True: (1e-5, 1e-4)}      # key: configuration involves rk23
-TOL_GRID4 = (1e-4, 5e-3)
+def tol_tight(conf):
+    if "23" in conf:
+        return (1e-4, 1e-3)
+    if conf == "rk45_btol":
+        return (1e-5, 1e-4)
+    return (1e-6, 1e-5)
+
+
+TOL_GRID4 = (1e-3, 1e-2)
 TOL_BCKLIN = 1e-6
 FLOOR = 1e-8          # refinement test: an error below this is not required to shrink further
 RATIO = {4: 0.35, 1: 0.80}     # required error reduction per halving (expected 1/16 and 1/2; observed <= 0.13 and <= 0.56)
@@ -73,8 +81,8 @@ LEVEL_TEXT = ("Held on every generated case of the run: 5 ODE families with clos
               "non-leaf) x 5 cotangent patterns x increasing/decreasing, uniform/ragged grids x first order (both backward code paths) and "
               "second order; every gradient incl. d/dts[0] compared with autograd of the closed form from the same leaves; unused tensors "
               "must get None/0.")
-LEVEL_NOTE = ("Relative tolerance 1e-6 / 1e-5 (first / second order; 10x looser with rk23) for adaptive integrators at 1e-10 / 1e-9; "
-              "fixed-step methods are decided on a twice-refined grid (order-of-convergence test + 1e-4 on the finest grid; Euler by the "
+LEVEL_NOTE = ("Relative tolerance 1e-6 / 1e-5 (first / second order; 1e-4 / 1e-3 with rk23 at 1e-9) for adaptive integrators at 1e-10; "
+              "fixed-step methods are decided on a twice-refined grid (order-of-convergence test + 1e-3 on the finest grid; Euler by the "
               "order test alone); trusts torch.linalg.matrix_exp and its autograd formulas.")
 RULE = ("seeded sampling over family x method configuration x parameter mode x requires-grad subset x cotangent pattern x direction x grid "
         "x order, plus directed classes (graph-recording backward w.r.t. ts for every adaptive configuration; one tensor supplied in two "
@@ -87,10 +95,10 @@ ASSUMPTIONS = [
     "(smallest/largest spacing >= 0.03 for adaptive, >= 1/3 for fixed-step methods)",
     "linear systems: A = -0.3 I + 0.7 N(0,1)/sqrt(n), scale 0.5..1.2, modulation 1 + b cos(w t) with b in 0.3..0.8, w in 1..3",
     "logistic: y0/K in 0.2..0.9 (no blow-up in either time direction)",
-    "adaptive integrators are run with atol=rtol=1e-10 (rk45) or 1e-9 (rk23); comparison tolerance 1e-6 / 1e-5 (rk23: 1e-5 / 1e-4) "
+    "adaptive integrators are run with atol=rtol=1e-10 (rk45) or 1e-9 (rk23); comparison tolerance 1e-6 / 1e-5 (backward at 1e-9: 1e-5 / 1e-4; with rk23: 1e-4 / 1e-3) "
     "relative to the largest reference gradient of the leaf kind, floored at 1e-2 * max(largest reference gradient of any leaf, "
     "largest cotangent entry)",
-    "fixed-step methods: base grids of 9..17 points (Euler 33) with spacing ratio <= 3, refined twice by midpoints; required error "
+    "fixed-step methods: base grids of 13..25 points (Euler 33) with spacing ratio <= 3, refined twice by midpoints; required error "
     "reduction per halving 0.35 (order 4) / 0.80 (Euler) unless the error is already below 1e-8",
     "'bck_options are honoured' is decided numerically on linear systems only (dL/dy0 there depends on the backward integrator alone)",
     "aliasing: one tensor supplied twice in params, or as an object's parameter and in params; two attributes of one object sharing "
@@ -174,7 +182,7 @@ def cases(seed, tier):
         rng = random.Random(sub_seed(seed, "c08f", i))
         d = _common(rng, {"group": "fixed", "seed": sub_seed(seed, "c08fs", i)})
         d["conf"] = grid[i % len(grid)]
-        d["nt"] = rng.choice([9, 13, 17]) if d["conf"] != "euler" else 33
+        d["nt"] = rng.choice([13, 17, 25]) if d["conf"] != "euler" else 33
         d["order"] = 2 if i % 4 == 3 else 1
         d["cg"] = (i // 4) % 2 if d["order"] == 1 else 1
         out.append(d)
@@ -732,7 +740,7 @@ def run_case(desc):
         else:
             for k in out.none_kinds:
                 obs.check(False, "grad1_none:%s:%s:%s" % (k, gname, path), "gradient None for a leaf of kind %s that enters the solution" % k)
-            tol1, tol2 = TOL_TIGHT["23" in desc["conf"]]
+            tol1, tol2 = tol_tight(desc["conf"])
             _check_errs(obs, out.errs1, tol1, "grad1:%%s:%s:%s:%s" % (gname, fb, path), "first-order gradient", worst)
             obs.note(errs1=out.errs1, val_err=out.val_err)
             if order == 2 and out.errs2 is not None:
